@@ -80,13 +80,82 @@ func lexloadReq(id int, modes [][]int) *req {
 	return q
 }
 
+// lexReq hands the model the raw BYTES: the model decodes them with its own mirror of
+// utf8.DecodeRune (Lex/Utf8Model.decode_all), so invalid and truncated encodings are the model's business too.
 func lexReq(id int, input []byte) *req {
-	dec := decodeInput(input)
-	q := newReq("lex").i(id).i(3*len(dec) + 8).i(len(dec))
-	for _, rw := range dec {
-		q.i(rw[0]).i(rw[1])
+	q := newReq("lexb").i(id).i(len(input))
+	for _, b := range input {
+		q.i(int(b))
 	}
 	return q
+}
+
+// utf8Req asks the model for the decoding of a byte string
+func utf8Req(input []byte) *req {
+	q := newReq("utf8").i(len(input))
+	for _, b := range input {
+		q.i(int(b))
+	}
+	return q
+}
+
+// checkUtf8 compares Utf8Model.decode_all with Go's utf8.DecodeRune on the inputs lexed in this run and on
+// adversarial byte strings (every lead byte with 0-3 continuation / non-continuation bytes at the class borders)
+func checkUtf8(c *checkCtx, inputs [][]byte) {
+	border := []byte{0x00, 0x7f, 0x80, 0x8f, 0x90, 0x9f, 0xa0, 0xbf, 0xc0, 0xc1, 0xc2, 0xdf, 0xe0, 0xe1, 0xec, 0xed, 0xee, 0xef, 0xf0, 0xf1, 0xf3, 0xf4, 0xf5, 0xf7, 0xf8, 0xff}
+	all := append([][]byte{}, inputs...)
+	for lead := 0; lead < 256; lead++ {
+		all = append(all, []byte{byte(lead)})
+		for _, b1 := range border {
+			all = append(all, []byte{byte(lead), b1})
+			if lead >= 0xe0 {
+				for _, b2 := range []byte{0x7f, 0x80, 0xbf, 0xc0} {
+					all = append(all, []byte{byte(lead), b1, b2})
+					if lead >= 0xf0 {
+						all = append(all, []byte{byte(lead), b1, b2, 0x80}, []byte{byte(lead), b1, b2, 0xbf}, []byte{byte(lead), b1, b2, 0x41})
+					}
+				}
+			}
+		}
+	}
+	for i := 0; i < 300; i++ {
+		n := 1 + c.rng.intn(12)
+		b := make([]byte, n)
+		for k := range b {
+			if c.rng.chance(1, 2) {
+				b[k] = border[c.rng.intn(len(border))]
+			} else {
+				b[k] = byte(c.rng.intn(256))
+			}
+		}
+		all = append(all, b)
+	}
+	var reqs []*req
+	for _, in := range all {
+		reqs = append(reqs, utf8Req(in))
+	}
+	ans, err := callModel(reqs)
+	if err != nil {
+		c.addFinding(finding{Signature: "model-failed", Desc: err.Error(), NoInput: true, Theorem: "loxmodel utf8", Replay: map[string]any{}})
+		return
+	}
+	bad := 0
+	for i, in := range all {
+		want := decodeInput(in)
+		a := ans[i]
+		n := a.int()
+		ok := n == len(want)
+		for k := 0; ok && k < n; k++ {
+			r, w := a.int(), a.int()
+			ok = r == want[k][0] && w == want[k][1]
+		}
+		if !ok && bad < 3 {
+			bad++
+			c.addFinding(finding{Signature: "utf8-model-mismatch", Desc: fmt.Sprintf("Utf8Model.decode_all and utf8.DecodeRune disagree on bytes % x: Go gives %v, the model %s", in, want, a.raw()),
+				NoInput: true, Theorem: "correspondence utf8.DecodeRune vs Lex/Utf8Model.decode_all", Replay: map[string]any{"bytes_hex": fmt.Sprintf("%x", in)}})
+		}
+	}
+	c.cov.Extra = mergeExtra(c.cov.Extra, map[string]any{"utf8_byte_strings_compared_with_go": len(all)})
 }
 
 // modelTokens renders the model's segments the way the driver prints tokens,
@@ -120,6 +189,7 @@ func checkLexer(c *checkCtx, prop string) {
 	c.assume = []string{
 		"specifications are sampled; for each one the universal quantifier over input texts is discharged by the Coq theorems (equiv_lex, lex_total, lex_tiling, ref_consumes_longest_viable, ...) once the emitted tables pass the checked conditions",
 		"LexRuntime.v (PushRune, simplelexer.ReadToken) is hand-written and tied to the generated code and loxlex v0.5.0 by this run's differential comparison (tokens and every PushRune return code)",
+		"the model receives the raw bytes and decodes them itself with Lex/Utf8Model.decode_all (mirror of utf8.DecodeRune, compared with Go on every input and on adversarial byte strings in C02/C11)",
 	}
 	o := lexGenOpts{}
 	switch prop {
@@ -255,6 +325,13 @@ func checkLexer(c *checkCtx, prop string) {
 	if err != nil {
 		c.addFinding(finding{Signature: "model-failed", Desc: err.Error(), NoInput: true, Theorem: "loxmodel", Replay: map[string]any{}})
 		return
+	}
+	if prop == "C02" || prop == "C11" {
+		var allIn [][]byte
+		for _, j := range jobs {
+			allIn = append(allIn, j.inputs...)
+		}
+		checkUtf8(c, allIn)
 	}
 	// implementation
 	parallel(len(jobs), func(i int) {
